@@ -85,6 +85,23 @@ CHECKS.update({
    text='For all ordered pairs and all triples of ten thread bodies (parse, resolve, shorten, mask query, toString, equals, dissect, compose, normalize, makeOwner on own outputs and shared read-only inputs) every schedule with at most 2 (quick) / 3 (thorough) preemptions at allocator calls, and at most 1 / 2 preemptions at basic-block edges of the library, is executed on the real code under a deterministic serialising scheduler; each thread must observe exactly what it observes alone, the shared allocator ledger must balance, the linker-bracketed writable data sections of the library must stay byte-identical, shared inputs are write-protected. Unsynchronised accesses are additionally looked for by a free-running ThreadSanitizer run of the same bodies on 16 real threads (reported as not exhaustive).',
    ref='DESIGN.md section 3, C20', note=TRUST + '; sequentially consistent interleavings only; 2-3 threads'),
 })
+STRETCH = ' Plus the stretch family: every component in turn blown up to lengths around the powers of two up to 4 097 (quick) / 65 537 (thorough) repetitions, so that counters and sizes held in too narrow a type show.'
+ADD = {
+ 'C01': STRETCH + ' The stretch strings are also run with an illegal character appended, a truncated escape appended, and an illegal character in the middle (error offsets far from the start).',
+ 'C02': STRETCH + ' The stand-alone IPv4 text parser (uriParseIpFourAddress) is compared with the reference on the 17^4 dec-octet product and all strings up to length 7 over {0,1,2,5,.,9,a}.',
+ 'C03': STRETCH + ' The state-based entry points (uriParseUriEx) are held to the same residue rules through the interposed C library allocator.',
+ 'C04': STRETCH, 'C05': STRETCH + ' (long objects: capacities at both ends, around the middle and around every power of two).',
+ 'C06': ' References also carry IPv4 / IPv6 / IPvFuture authorities and a scheme of which the base scheme is a proper prefix; deeper paths (n+2 tokens) over the reduced alphabet {empty, ., .., b}; where a rootless result would start with "//" the "." segment is required.',
+ 'C07': ' Initial states also include percent-encoded delimiters (%2F %3A %40 %3F %23 %5B %5D %25 %2E) in every component and deeper reduced-alphabet paths.',
+ 'C08': STRETCH + ' Plus all sequences up to 3 (4) over ten triplet / letter tokens inside user info, host, path segment, query and fragment (every adjacency of normal-form, lower-case-hex and decodable triplets).',
+ 'C10': ' Authorities that differ only in the last address byte / the low half of an IPv6 address are included; paths are compared kind-preservingly (a rootless ".//a" is not "/a").',
+ 'C11': ' (c) all pairs of all sub-ranges of one shared buffer that parse (components start or end at the same address with different texts).',
+ 'C13': ' The universe is extended until every out-of-memory return site of resolve / shorten / dot-segment removal is reached (checked with the gcov flavour, bin/vcheck --cov).',
+ 'C14': ' The universe is extended until every out-of-memory return site of resolve / shorten / dot-segment removal is reached (checked with the gcov flavour, bin/vcheck --cov).',
+ 'C16': STRETCH, 'C17': ' The C-library-allocator variants uriComposeQueryMalloc / uriComposeQueryMallocEx are compared as well.',
+ 'C18': STRETCH + ' Every byte value 1..255 is placed in every kind of position (first character, after a separator, inside a UNC server name, after a drive prefix).',
+ 'C20': ' Thirteen bodies since the third session: escape/unescape, the four filename conversions and a wchar_t parse+normalize+resolve+toString chain were added.',
+}
 NOT_YET = {}
 def main():
     props = [json.loads(l) for l in open(os.path.join(VERIF, 'properties.jsonl'))]
@@ -92,6 +109,7 @@ def main():
     for p in props:
         c = CHECKS.get(p['id'])
         if not c: continue
+        c = dict(c); c['text'] = c['text'] + ADD.get(p['id'], '')
         checks.append(dict(property_id=p['id'], quick_cmd='bin/vcheck %s --tier quick' % p['id'], thorough_cmd='bin/vcheck %s --tier thorough' % p['id'],
             evidence_file='evidence/%s.json' % p['id'], replay_cmd_template='bin/vcheck --replay {path}', engine='vcheck',
             level_claimed=dict(category=c['cat'], text=c['text'], design_ref=c['ref']), level_note=c['note'], technique=c['tech']))
